@@ -600,7 +600,9 @@ def steps():
     twice = st.tuples(vec, ask, mutate).map(lambda t: [[t[1], t[0]], [t[2][0], t[0]] + t[2][2:], [t[1], t[0]]])
     reflected = st.tuples(vec, st.sampled_from(["gt", "ge", "le", "lt"]), vec).map(lambda t: [["cmp", t[0], t[1], ["h", t[2]]]])
     plain = st.lists(st.one_of(simple, simple, meth), min_size=1, max_size=25)
-    frag = st.one_of(twice, reflected)
+    #  - comparison of an object whose __eq__/__ne__ is neither reflexive nor boolean with ITSELF (world slot 15)
+    weird = st.sampled_from([[["cmp_self", 15, "eq"]], [["cmp_self", 15, "ne"]], [["cmp", 15, "eq", ["h", 15]]], [["cmp", 15, "ne", ["h", 15]]]])
+    frag = st.one_of(twice, reflected, weird)
     return st.one_of(plain, plain, st.tuples(st.lists(st.one_of(simple, meth), max_size=6), frag, st.lists(st.one_of(simple, meth), max_size=6)).map(
         lambda t: t[0] + t[1] + t[2]))
 
